@@ -132,7 +132,7 @@ class CliChecker:
 
 @st.composite
 def cli_case(draw, pools):
-    p = draw(progs.structured_program(pools))
+    p = draw(progs.structured_program(pools, align_data=None))
     cfgs = [("hex", (), "ref.hex")]
     n = draw(st.integers(3, 5))
     for i in range(n):
@@ -311,7 +311,7 @@ def run(tier, seed, shard, nshards):
             addr += draw(st.sampled_from([0x20, 0x40, 0x100]))
         return cpu, bpa, blocks
 
-    hist = st.tuples(st.lists(progs.structured_program(pools), min_size=2, max_size=4),
+    hist = st.tuples(st.lists(progs.structured_program(pools, align_data=None), min_size=2, max_size=4),
                      st.lists(st.tuples(st.integers(0, 3), st.booleans()), min_size=3, max_size=8)).map(
         lambda t: (t[0], [(i % len(t[0]), l) for i, l in t[1]]))
     try:
@@ -320,7 +320,7 @@ def run(tier, seed, shard, nshards):
         n3 = 400 if tier == "quick" else 6000
         hyp_run(test_cli, cli_case(pools), n1, shard_seed(seed, shard, "c13a"), s)
         hyp_run(test_history, hist, n2, shard_seed(seed, shard, "c13b"), s)
-        hyp_run(test_listing, progs.structured_program(pools), n3, shard_seed(seed, shard, "c13c"), s)
+        hyp_run(test_listing, progs.structured_program(pools, align_data=None), n3, shard_seed(seed, shard, "c13c"), s)
         hyp_run(test_util_asm, util_case(), n1, shard_seed(seed, shard, "c13d"), s)
     finally:
         cli.close()
